@@ -112,6 +112,26 @@ Definition ch_flag_choice (w : list N) : option choice :=
 (* ---- vocabulary of the function translator (tools/gen_fn_choice.py -> Generated/ChoiceFn.v) ----
    Adapters and the hand models of the plumbing around the global; definitions only. *)
 
+(* #[derive(PartialEq)] of Option<T>, over T's equality (`clicolor == Some(true)`) *)
+Definition ch_opt_eqb {A : Type} (eqb : A -> A -> bool) (a b : option A) : bool :=
+  match a, b with
+  | None, None => true
+  | Some x, Some y => eqb x y
+  | _, _ => false
+  end.
+
+(* #[derive(PartialEq)] of colorchoice::ColorChoice and of clap's ColorChoice (`choice != ColorChoice::Auto`) *)
+Definition ch_choice_eqb (a b : choice) : bool :=
+  match a, b with
+  | ChAuto, ChAuto | ChAlwaysAnsi, ChAlwaysAnsi | ChAlways, ChAlways | ChNever, ChNever => true
+  | _, _ => false
+  end.
+Definition ch_flag_eqb (a b : color_flag) : bool :=
+  match a, b with
+  | FlAuto, FlAuto | FlAlways, FlAlways | FlNever, FlNever => true
+  | _, _ => false
+  end.
+
 (* a `&dyn RawStream`, as far as anstream::auto::choice looks at it: the answer of is_terminal() *)
 Definition ch_raw := bool.
 Definition ch_raw_is_terminal (r : ch_raw) : bool := r.
